@@ -676,13 +676,14 @@ main(int argc, char **argv)
 
 	/* handle the *in development* -M option, if enabled */
 	    if( esl_opt_IsOn(go, "-M")) { 
+	      if(msa == NULL) esl_fatal("-M cannot be combined with the clustering options (the clusters have already been written)");
 	      if((status = minorize_msa(go, msa, errbuf, ofp, esl_opt_GetString(go, "-M"), outfmt) != eslOK)) esl_fatal("%s", errbuf);
 	    }
 
 	/********************
 	 * Output alignment *
 	 ********************/
-	    if(! esl_opt_IsOn(go, "-M")) { /* if -M, we already output the alignments in minorize_msa() */
+	    if(msa != NULL && ! esl_opt_IsOn(go, "-M")) { /* if -M, we already output the alignments in minorize_msa(); if msa is NULL the cluster alignments were output above */
 	      status = esl_msafile_Write(ofp, msa, outfmt);
 	      if      (status == eslEMEM) esl_fatal("Memory error when outputting alignment\n");
 	      else if (status != eslOK)   esl_fatal("Writing alignment file failed with error %d\n", status);
@@ -2282,6 +2283,7 @@ MSADivide(ESL_MSA *mmsa, ESL_DMATRIX *D, int do_mindiff, int do_nc, int do_nsize
   int     xsize;       /* size of cluster under 'best' node (largest cluster) */
 
   /* Contract check */
+  if(mmsa->nseq < 2)                       ESL_FAIL(eslEINCOMPAT, errbuf, "clustering needs an alignment of at least 2 sequences (this one has %d).", mmsa->nseq);
   if((do_nc + do_mindiff + do_nsize) != 1) ESL_FAIL(eslEINCOMPAT, errbuf, "MSADivide() exactly 1 of do_nc, do_mindiff, do_nsize must be TRUE.");
   if( do_nc && target_nc == 0)             ESL_FAIL(eslEINCOMPAT, errbuf, "MSADivide() target_nc is 0 but do_nc is TRUE!");
   if( do_nsize && target_nsize == 0)       ESL_FAIL(eslEINCOMPAT, errbuf, "MSADivide() target_nsize is 0 but do_nsize is TRUE!");
